@@ -432,7 +432,7 @@ def plNote (r : BSt × Option String × Option Nat) : BSt :=
 def plPop (s2 : BSt) (i : Nat) (st : Stmt) (rest : List Stmt) : BSt :=
   { s2.setTh i (fun t => { t with buf := rest, popped := t.popped ++ [st] }) with popLog := st :: s2.popLog }
 def plPre (inj : BSt → Nat → BSt) (s3 : BSt) : BSt :=
-  cleanupContexts inj (if s3.cfg.reportBeforeFlushCleanup then checkFailures inj s3 else s3)
+  cleanupContexts (if s3.cfg.reportBeforeFlushCleanup then checkFailures inj s3 else s3)
 def plFlag (inj : BSt → Nat → BSt) (s3 : BSt) (f : Nat) : BSt :=
   { plPre inj s3 with flags := f :: (plPre inj s3).flags, flagLog := (f, (plPre inj s3).log.length) :: (plPre inj s3).flagLog }
 
@@ -485,7 +485,7 @@ theorem PIo.processLowest (hi : InjOK inj) (h : PIo fl s)
           rw [hth] at hfb; rw [hcache] at hic; exact hmin i hic f fs hfb
       split
       · unfold plFlag plPre
-        refine PIo.frame (PIo.cleanupContexts hi ?_) rfl
+        refine PIo.frame (PIo.cleanupContexts ?_) rfl
         split
         · exact hpop.checkFailures hi
         · exact hpop
